@@ -53,7 +53,7 @@ def noEigs : Op GRat → Eigs GRat := fun G => ⟨fun _ => 0, .dense G.dtype G.r
 def baseParams : Params GRat where
   lapackSvd := fun _ _ _ => ⟨fun _ _ => 0, fun _ => 0, fun _ _ => 0⟩
   lanczosEigs := noEigs
-  lobpcgEigs := noEigs
+  lobpcgEigs := fun _ => noEigs
   sqrt := fun _ => 0
   inv := GRat.inv
   lt := fun a b => a.re < b.re
@@ -72,6 +72,14 @@ def jEigs (j : Json) : E (Op GRat → Eigs GRat) := do
     let Qop : Op GRat := orthonormal (.dense G.dtype G.rows jn (forceV G.rows jn (matF Q)).f)
     let Yop : Op GRat := .dense ydt jn jn (forceV jn jn (matF Y)).f
     ⟨vecF vals, .prod [Qop, Yop]⟩
+
+/-- the `lobpcg` parameter from the case: values and the dense eigenvector array `V` (g × j);
+`lobpcg` returns `Dense(eigvecs[:, idx])` of the operator's dtype -/
+def jEigsDense (j : Json) : E (Op GRat → Eigs GRat) := do
+  let vals ← jVec (getF j "vals")
+  let V ← jMat (getF j "V")
+  let jn := vals.size
+  pure fun G => ⟨vecF vals, .dense G.dtype G.rows jn (forceV G.rows jn (matF V)).f⟩
 
 /-- `sqrt` as the table the case supplies (positions of `vals`) -/
 def jSqrt (j : Json) : E (GRat → GRat) := do
@@ -122,6 +130,12 @@ def exactProperty (A : Op GRat) (T : Triple GRat) : String :=
   let recon := m == A.rows && n == A.cols && eqWin m n rec_ A.den.f
   s!"\"orthU\":{orthU},\"orthV\":{orthV},\"sigma_ok\":{sigOk},\"recon\":{recon}"
 
+/-- optional `"den"` field: the represented matrix (SPEC), on request (`"want_den": true`) -/
+def denField (j : Json) (A : Op GRat) : String :=
+  match getF j "want_den" with
+  | .bool true => s!",\"den\":{showMat A.rows A.cols A.den.f}"
+  | _ => ""
+
 def showNats (l : List Nat) : String := "[" ++ ",".intercalate (l.map toString) ++ "]"
 
 /-- kind tree of `PSD(IterativeOperatorWInfo(M, CG) + reg) @ A.H` -/
@@ -166,7 +180,8 @@ def handle (j : Json) : E String := do
       let w ← jWhich (getF j "which")
       let alg ← jAlg (getF j "alg")
       let rule := svdRule A alg
-      let pre := s!"\"id\":{id},\"rule\":\"{rule.toString}\",\"wf\":{A.wf},\"clauses\":[]"
+      let cl := if rule == .lobpcg then lobpcgClauses A k else []
+      let pre := s!"\"id\":{id},\"rule\":\"{rule.toString}\",\"wf\":{A.wf},\"clauses\":{showStrs cl}" ++ denField j A
       match rule with
       | .identity =>
           let T := svdIdentity A
@@ -191,20 +206,22 @@ def handle (j : Json) : E String := do
           pure ("{" ++ pre ++ s!",\"idx\":{showNats idx}," ++ showFactor "U" T.U ++ "," ++ showFactor "S" T.S ++ "," ++ showFactor "V" T.V ++ "}")
       | _ => do
           let ej := getF j "eigs"
-          let eigs ← jEigs ej
+          let eigs ← match getF ej "V" with
+            | .null => jEigs ej
+            | _ => jEigsDense ej
           let sq ← jSqrt ej
-          let P : Params GRat := { baseParams with lanczosEigs := eigs, lobpcgEigs := eigs, sqrt := sq }
+          let P : Params GRat := { baseParams with lanczosEigs := eigs, lobpcgEigs := fun _ => eigs, sqrt := sq }
           match svdKrylov P eigs (rule == .lobpcg) A k w with
           | .error e => pure ("{" ++ pre ++ s!",\"err\":\"{e}\"" ++ "}")
           | .ok o =>
               let T := o.triple
               let back := if o.tall then T.U else T.V
               let backEq := eqWin back.rows back.cols back.td.f o.specBack.f
-              pure ("{" ++ pre ++ s!",\"tall\":{o.tall},\"gram\":{skel o.G},\"j\":{o.j},\"pos\":{showNats o.pos},\"back_eq\":{backEq}," ++ showFactor "U" T.U ++ "," ++ showFactor "S" T.S ++ "," ++ showFactor "V" T.V ++ "}")
+              pure ("{" ++ pre ++ s!",\"tall\":{o.tall},\"gram\":{skel o.G},\"j\":{o.j},\"pos\":{showNats o.pos},\"back_eq\":{backEq},\"back_good\":{o.lazyBack.wf && !o.lazyBack.dupSlice},\"back_skel\":{skel o.lazyBack}," ++ showFactor "U" T.U ++ "," ++ showFactor "S" T.S ++ "," ++ showFactor "V" T.V ++ "}")
   | "pinv" => do
       let A ← jOp (getF j "op")
       let alg ← jPAlg (getF j "alg")
-      let pre := s!"\"id\":{id},\"wf\":{A.wf},\"clauses\":[]"
+      let pre := s!"\"id\":{id},\"wf\":{A.wf},\"clauses\":[]" ++ denField j A
       match pinv baseParams A alg with
       | .op B =>
           let n := A.rows
